@@ -79,6 +79,8 @@ uint64_t plan_shape (const J &plan)
 	return h ;
 }
 
+bool g_thorough = false ;
+
 uint64_t sub_seed (uint64_t seed, const char *profile, uint64_t idx)
 {	return mix3 (seed, fnv1a (profile, strlen (profile)), idx) ;
 }
